@@ -7,7 +7,7 @@ export GOFLAGS=-mod=mod GOPROXY=off GOSUMDB=off GOTOOLCHAIN=local PATH=/opt/veri
 [ -x bin/govc ] || ./build.sh
 wt=/tmp/wt/seedrun-$$; sv=/tmp/seedrun-verif-$$
 git -C /repo worktree add -q --detach $wt HEAD || exit 2
-mkdir -p $sv; cp props.json known_findings.json $sv/
+mkdir -p $sv; cp props.json known_findings.json $sv/; cp -r findings $sv/
 trap 'git -C /repo worktree remove --force $wt >/dev/null 2>&1; rm -rf $sv' EXIT
 seeds=("$@"); [ ${#seeds[@]} -eq 0 ] && seeds=($(ls seeded | grep -v RESULTS))
 for s in "${seeds[@]}"; do
